@@ -1,2 +1,4 @@
-/- placeholder driver for C09: replaced when the check for C09 is built -/
-def main : IO Unit := IO.println "not-built"
+import CashewsVerif.Driver.SerialDrv
+/- Driver for C09 (serialization round trip): the shared serializer protocol of `Driver/SerialDrv.lean`
+   over the model `Model/Serial.lean`. -/
+def main : IO Unit := CashewsVerif.Proto.mainLoop CashewsVerif.SerialDrv.step ()
